@@ -33,7 +33,9 @@ pub fn case_rng(seed: u64, prop: &str, op_ix: usize, index: u64) -> Rng {
 }
 
 pub fn make_case(seed: u64, prop: &str, op: &str, index: u64) -> (CaseSpec, Chooser) {
-    let op_ix = ALL_OPS.iter().position(|x| *x == op).unwrap_or(0);
+    let base = op.strip_suffix("+deep").unwrap_or(op);
+    let deep = op.ends_with("+deep");
+    let op_ix = ALL_OPS.iter().position(|x| *x == base).unwrap_or(0) + if deep { 100 } else { 0 };
     let mut c = Chooser::random(case_rng(seed, prop, op_ix, index));
     let spec = gen_case(&mut c, op, prop);
     (spec, c)
@@ -145,6 +147,7 @@ pub fn run(o: &Opts, rep: &mut Report) {
             let which = which.clone();
             let prop = o.prop.clone();
             let seed = o.seed;
+            let thorough = o.tier == "thorough";
             hs.push(s.spawn(move || {
                 let mut rep = Report::default();
                 for op in ops.iter() {
@@ -158,6 +161,21 @@ pub fn run(o: &Opts, rep: &mut Report) {
                         }
                         digest(&mut rep, &prop, op, &id, &spec, &r, &known, t == 0);
                         i += nthreads as u64;
+                    }
+                    if thorough {
+                        // larger configurations: more members, longer scripts and schedules, deeper trees
+                        let deep_op = format!("{}+deep", op);
+                        let mut i = t as u64;
+                        while i < per_op / 4 {
+                            let (spec, mut c) = make_case(seed, &prop, &deep_op, i);
+                            let r = run_case(&spec, &mut c, &which);
+                            let id = format!("E1:{}:{}:{}:{}", prop, seed, deep_op, i);
+                            for (k, v) in r.exercised.iter() {
+                                *rep.exercised.entry(k.to_string()).or_insert(0) += *v;
+                            }
+                            digest(&mut rep, &prop, &deep_op, &id, &spec, &r, &known, false);
+                            i += nthreads as u64;
+                        }
                     }
                 }
                 rep
